@@ -285,3 +285,35 @@ pub fn split_at_cuts<'a>(bytes: &'a [u8], cuts: &[usize]) -> Vec<&'a [u8]> {
     out.push(&bytes[last..]);
     out
 }
+
+/// A copy of `bytes` placed so that its first byte's address is `misalign` modulo 16
+/// (allocator- and fuzzer-provided buffers are always aligned; callers' slices are not).
+pub struct Placed {
+    buf: Vec<u8>,
+    start: usize,
+    len: usize,
+}
+
+impl Placed {
+    pub fn new(bytes: &[u8], misalign: usize) -> Placed {
+        let mut buf = vec![0xA5u8; bytes.len() + 32];
+        let base = buf.as_ptr() as usize;
+        let start = (16 - base % 16) % 16 + misalign % 16;
+        buf[start..start + bytes.len()].copy_from_slice(bytes);
+        Placed { buf, start, len: bytes.len() }
+    }
+
+    pub fn bytes(&self) -> &[u8] {
+        &self.buf[self.start..self.start + self.len]
+    }
+
+    /// A deterministic misalignment for a byte string: a function of its contents, so that
+    /// the same case is always placed the same way.
+    pub fn misalign_of(bytes: &[u8]) -> usize {
+        let mut h = bytes.len();
+        for b in bytes.iter().take(64) {
+            h = h.wrapping_mul(31).wrapping_add(*b as usize);
+        }
+        h % 16
+    }
+}
